@@ -638,7 +638,7 @@ pub fn host_strategy() -> impl Strategy<Value = HostCase> {
         .prop_map(|(status_reply, key_reply, goal_state, shared_config, instance)| HostCase { status_reply, key_reply, goal_state, shared_config, instance })
 }
 
-pub const RULE_HOST: &str = "part C: hostile host replies to the agent's own calls. For the status and key calls of the real KeyKeeper and for direct calls of WireServerClient::get_goalstate (+ get_shared_config_uri), get_shared_config and ImdsClient::get_imds_instance_info: bodies derived from the repository's canned documents or arbitrary text, mutated (truncated, span deleted, all RoleInstance elements removed, a run of 2000 multi-byte characters inserted, emptied), encoded as UTF-8 / UTF-16LE / UTF-16LE with an odd number of bytes, sent with right and wrong content types (json/xml/text/octet-stream/none, charset utf-8/utf-16/utf-32), error or success status, Content-Length or chunked, in generated write pieces (odd sizes, with pauses, so that frames split inside code units). oracle: the panic hook stays empty, no spawned task ends in a panic; afterwards the module status of the key keeper can be read (status and provisioning readers), and with a good document restored the key keeper converges again and reports RUNNING. non-trivial: an odd-length UTF-16 body, a goal state without role instances, or a non-ASCII insertion; distinct by hash of the case.";
+pub const RULE_HOST: &str = "part C: hostile host replies to the agent's own calls. For the status and key calls of the real KeyKeeper and for direct calls of WireServerClient::get_goalstate (+ get_shared_config_uri), get_shared_config and ImdsClient::get_imds_instance_info: bodies derived from the repository's canned documents or arbitrary text, mutated (truncated, span deleted, all RoleInstance elements removed, a run of 2000 multi-byte characters inserted, emptied), encoded as UTF-8 / UTF-16LE / UTF-16LE with an odd number of bytes, sent with right and wrong content types (json/xml/text/octet-stream/none, charset utf-8/utf-16/utf-32), error or success status, Content-Length (the true one, or a declared length of up to 2^64-3 in front of a short body) or chunked, in generated write pieces (odd sizes, with pauses, so that frames split inside code units). oracle: the panic hook stays empty, no spawned task ends in a panic; afterwards the module status of the key keeper can be read (status and provisioning readers), and with a good document restored the key keeper converges again and reports RUNNING. non-trivial: an odd-length UTF-16 body, a goal state without role instances, or a non-ASCII insertion; distinct by hash of the case.";
 
 fn build_reply(r: &HostileReply) -> (ResponseSpec, bool) {
     let base: String = match r.base % 6 {
@@ -693,6 +693,9 @@ fn build_reply(r: &HostileReply) -> (ResponseSpec, bool) {
     }
     if r.chunked {
         spec.framing = RespFraming::Chunked(r.pieces.clone());
+    } else if r.at % 8 == 5 {
+        // a declared length that has nothing to do with the body: up to the largest value hyper accepts
+        spec.framing = RespFraming::LengthDeclared([1u64 << 63, u64::MAX - 2, (1u64 << 63) + 5, 1_000_000_000_000_000, 1 << 40][r.len as usize % 5]);
     }
     spec.pieces = r.pieces.clone();
     spec.pause_us = r.pause_us;
